@@ -117,6 +117,45 @@ theorem C07_unordered_sides (cfg : Cfg) (c : Core) (ch : List Node) (dg sg : CG)
       rw [hs.support a hn] at h
       cases h
 
+/-! ## executor instructions -/
+
+/-- executor INSTRUCTIONS — whatever their form: `(class, args, kwargs)` or `(provider function, args,
+kwargs)`; the model treats them as opaque data `instr k` — are part of what comes back, at every depth
+and for a node stored on its own: `Runnable.__getstate__` (`Exec.strip`) drops live executor objects and
+nothing else, and the round trip returns every node's record with exactly that executor -/
+theorem C07_executor_instructions (cfg : Cfg) (d : Option Path) (g : Node) (k : Nat) :
+    Exec.strip (.instr k) = .instr k ∧
+    (img cfg d g).core.exec = g.core.exec.strip ∧
+    (g.core.exec = .instr k → (img cfg d g).core.exec = .instr k) ∧
+    (∀ p, ∀ r ∈ obs p g, ∀ j, r.core.exec = .instr j → ∃ c : Core, r.core = c.seen ∧ c.exec = .instr j) := by
+  refine ⟨rfl, by cases g; simp [img, Node.core, Core.forState], fun h => by cases g; simp_all [img, Node.core, Core.forState, Exec.strip], ?_⟩
+  intro p
+  induction g using Node.rec (motive_2 := fun ns => ∀ (p : Path), ∀ r ∈ obsL p ns, ∀ j, r.core.exec = .instr j →
+      ∃ c : Core, r.core = c.seen ∧ c.exec = .instr j) generalizing p with
+  | mk c ch dg sg ih =>
+    intro r hr j hj
+    simp only [obs, List.mem_cons] at hr
+    rcases hr with rfl | hr
+    · refine ⟨c, rfl, ?_⟩
+      simp only [Core.seen] at hj
+      cases he : c.exec <;> simp_all [Exec.strip]
+    · exact ih _ r hr j hj
+  | nil => rename_i q r hr j hj; simp [obsL] at hr
+  | cons n ns ihn ihns =>
+    rename_i q r hr j hj
+    simp only [obsL, List.mem_append] at hr
+    rcases hr with hr | hr
+    · exact ihn q r hr j hj
+    · exact ihns q r hr j hj
+
+/-- the stripping variant: a `__getstate__` that recognises only class-based instructions loses a
+provider-function instruction (3 below) on every round trip — the copy's node has no executor and
+computes in-process — while the class-based one (4) survives -/
+theorem C07_narrow_strip_loses_instructions :
+    Exec.stripNarrow (fun k => k == 4) (.instr 3) = .none ∧ Exec.strip (.instr 3) = .instr 3 ∧
+    Exec.stripNarrow (fun k => k == 4) (.instr 4) = .instr 4 ∧ Exec.stripNarrow (fun k => k == 4) .live = Exec.strip .live := by
+  decide
+
 /-! ## a child on its own -/
 
 /-- every record of an observation lies below the observed node: nothing of a parent or sibling -/
@@ -554,6 +593,8 @@ end PwVerif.C07
 #print axioms PwVerif.C07.C07_roundtrip_twice
 #print axioms PwVerif.C07.C07_roundtrip_partial
 #print axioms PwVerif.C07.C07_unordered_sides
+#print axioms PwVerif.C07.C07_executor_instructions
+#print axioms PwVerif.C07.C07_narrow_strip_loses_instructions
 #print axioms PwVerif.C07.C07_child_alone
 #print axioms PwVerif.C07.C07_rerun
 #print axioms PwVerif.C07.C07_refetch
